@@ -98,3 +98,40 @@ impl<'a> Pieces<'a> {
 pub fn reject_template(Ghost(justified): Ghost<bool>) -> !
     requires justified
 { panic!() }
+// ---- TRUSTED: std string functions used by PathSegment::from, each an uninterpreted function of the text ----
+pub uninterp spec fn starts_with_c(s: Seq<char>, c: char) -> bool;
+pub uninterp spec fn ends_with_c(s: Seq<char>, c: char) -> bool;
+pub uninterp spec fn first_index_of(s: Seq<char>, c: char) -> Option<usize>;
+pub uninterp spec fn byte_len(s: Seq<char>) -> usize;
+pub uninterp spec fn range_of(s: Seq<char>, a: usize, b: usize) -> Seq<char>;
+pub open spec fn prefix_to(s: Seq<char>, end: usize) -> Seq<char> { range_of(s, 0, end) }
+pub open spec fn suffix_from(s: Seq<char>, start: usize) -> Seq<char> { range_of(s, start, byte_len(s)) }
+/// dependency facts: a text that starts with one character and ends with a DIFFERENT one has at least two bytes; the
+/// byte index `find` returns lies inside the text
+pub broadcast axiom fn ax_two_delimiters(s: Seq<char>, a: char, b: char)
+    ensures #[trigger] starts_with_c(s, a) && #[trigger] ends_with_c(s, b) && a != b ==> byte_len(s) >= 2;
+pub broadcast axiom fn ax_found_index_inside(s: Seq<char>, c: char)
+    ensures #[trigger] first_index_of(s, c) is Some ==> first_index_of(s, c)->Some_0 < byte_len(s);
+pub trait StrFns2 {
+    fn starts_with_char(&self, c: char) -> bool;
+    fn ends_with_char(&self, c: char) -> bool;
+    fn find_char(&self, c: char) -> Option<usize>;
+    fn blen(&self) -> usize;
+}
+impl StrFns2 for str {
+    #[verifier::external_body] fn starts_with_char(&self, c: char) -> (r: bool) ensures r == starts_with_c(self@, c) { unimplemented!() }
+    #[verifier::external_body] fn ends_with_char(&self, c: char) -> (r: bool) ensures r == ends_with_c(self@, c) { unimplemented!() }
+    #[verifier::external_body] fn find_char(&self, c: char) -> (r: Option<usize>) ensures r == first_index_of(self@, c) { unimplemented!() }
+    #[verifier::external_body] fn blen(&self) -> (r: usize) ensures r == byte_len(self@) { unimplemented!() }
+}
+/// `&s[a..b]` / `&s[..b]` / `&s[a..]` (byte ranges; panic outside the text or off a character boundary)
+#[verifier::external_body]
+pub fn str_range(s: &str, a: usize, b: usize) -> (r: &str) requires a <= b <= byte_len(s@) ensures r@ == range_of(s@, a, b) { unimplemented!() }
+#[verifier::external_body]
+pub fn str_prefix(s: &str, end: usize) -> (r: &str) requires end <= byte_len(s@) ensures r@ == prefix_to(s@, end) { unimplemented!() }
+#[verifier::external_body]
+pub fn str_suffix(s: &str, start: usize) -> (r: &str) requires start <= byte_len(s@) ensures r@ == suffix_from(s@, start) { unimplemented!() }
+pub trait ToStringSame2 { fn to_string_(&self) -> String; }
+impl ToStringSame2 for str {
+    #[verifier::external_body] fn to_string_(&self) -> (r: String) ensures r@ == self@ { unimplemented!() }
+}
